@@ -236,14 +236,16 @@ theorem fantasy_dirichlet_likelihood_frame (s : Nat → Frame.Val) :
     funext a
     simp [Frame.upd] <;> grind
 
-/- Not provable on /repo HEAD 975fbb8 (the Dirichlet override restores `noise_covar` outside a `finally`, so a failing
-`deepcopy` leaves the source likelihood without its noise model — fixes/C04-dirichlet-fantasy-restore-on-error.patch);
-to be enabled, at full strength, once the repair is in /repo:
-
+/-- … and on the path where `deepcopy(self)` raises the Dirichlet override restores `noise_covar` as well (it did not
+before /repo 47c307a: the restore stood outside a `finally`). -/
 theorem fantasy_dirichlet_likelihood_frame_exc (s : Nat → Frame.Val) :
     (Frame.runExc Gen.FantasyFrame.dirichletFantasyLikelihoodOps (Frame.start s)).2.self = s ∧
-    (Frame.runExc Gen.FantasyFrame.dirichletFantasyLikelihoodOps (Frame.start s)).1 = Frame.Mode.raised
--/
+    (Frame.runExc Gen.FantasyFrame.dirichletFantasyLikelihoodOps (Frame.start s)).1 = Frame.Mode.raised := by
+  constructor
+  · funext a
+    simp [Frame.runExc, Frame.stepExc, Frame.Op.run, Frame.upd, Frame.start,
+      Gen.FantasyFrame.dirichletFantasyLikelihoodOps] <;> grind
+  · simp [Frame.runExc, Frame.stepExc, Frame.Op.run, Frame.start, Gen.FantasyFrame.dirichletFantasyLikelihoodOps]
 
 /-- Exceptional path (`deepcopy(self)` raises, as it does for a model holding non-leaf tensors, e.g. a KISS-GP model
 after an eval-mode prediction): the source object still ends with every attribute restored, and the exception
